@@ -42,8 +42,9 @@ PLANS = {
         "random": {"quick": (400, 7), "thorough": (6000, 8)},
     },
     "C14": {
-        "quick": [("chain1_4", "chain1", 4, None, "simplify"), ("chain1_5", "chain1", 5, 9000, "simplify")],
-        "thorough": [("chain1_5", "chain1", 5, None, "simplify"), ("chain4", "chain", 4, None, "simplify")],
+        "quick": [("chain1_4", "chain1", 4, None, "simplify"), ("chainp6", "chainp", 6, 8000, "simplify")],
+        "thorough": [("chain1_5", "chain1", 5, None, "simplify"), ("chain4", "chain", 4, None, "simplify"),
+                     ("chainp6", "chainp", 6, None, "simplify"), ("chainp7", "chainp", 7, 150000, "simplify")],
         "random": {"quick": (0, 0), "thorough": (0, 0)},
     },
 }
@@ -85,13 +86,17 @@ def run(prop, tier):
     nrand, rb = PLANS[prop]["random"][tier]
     if nrand:
         progs, st = common.gen_programs(
-            prop, "rand", "all", rb, simulate=f"num={max(1, nrand // 16)}",
+            prop, "rand", PLANS[prop].get("random_family", "all"), rb, simulate=f"num={max(1, nrand // 16)}",
             extra_args=["-depth", "80", "-seed", str(common.seed() + 1)])
         rep.add_tlc(st)
-        fam_counts["random"] = {"generated": len(progs), "replayed": len(progs), "budget": rb,
+        total = len(progs)
+        if prop == "C14":
+            progs = [p for p in progs if has_kind(p, PACK)]
+        progs = common.subsample_stratified(progs, nrand, salt="rand")
+        fam_counts["random"] = {"generated": total, "replayed": len(progs), "budget": rb,
                                 "exhaustive": False}
         for p in progs:
-            jobs.append((next_id, "simplify", p, {"shape": False}))
+            jobs.append((next_id, "simplify", p, {"shape": prop == "C14"}))
             next_id += 1
 
     recs = replay_passes.run_many(jobs)
